@@ -256,7 +256,7 @@ def shard(n, seed, known, max_frames):
 
 def run(ctx):
     jobs = [(k, core.subseed(ctx.seed, "l", i), ctx.known_sigs, 10)
-            for i, k in enumerate(core.split(ctx.n(1500, 40000), 16))]
+            for i, k in enumerate(core.split(ctx.n(4500, 60000), 16))]
     stats = core.Stats()
     for s in core.pmap(shard, jobs):
         stats.merge(s)
